@@ -104,6 +104,14 @@ class Interp:
             return r.value
         return None
 
+    def run_stmts(self, stmts: list[ast.stmt], env: dict[str, Any]) -> Any:
+        """Evaluates a statement list (a slice of a function body) and gives back what it returns."""
+        try:
+            self.run(stmts, env)
+        except _Return as r:
+            return r.value
+        return None
+
     # -- expressions -------------------------------------------------------------
 
     def ev(self, e: ast.AST, env: dict[str, Any]) -> Any:
